@@ -118,6 +118,23 @@ pub fn drive(tr: &mut Tracer, rng: &mut StdRng, thorough: bool) {
             }
         }
     }
+    // non-ASCII characters, NUL and other oddities at every structural position of a numeral
+    for base in ["12.5e3", "-.5", "+7.", "0.001E-2", "1_000.2_5"] {
+        for ins in ["\u{0663}", "\u{e9}", "\u{ff15}", "\u{1d7d0}", "\0", "\u{2212}", "\u{a0}", "\u{66b}"] {
+            for pos in 0..=base.len() {
+                let mut s = String::from(base);
+                s.insert_str(pos, ins);
+                all_apis(tr, &s);
+                // replacing the character at pos
+                if pos < base.len() {
+                    let mut t = String::from(&base[..pos]);
+                    t.push_str(ins);
+                    t.push_str(&base[pos + 1..]);
+                    all_apis(tr, &t);
+                }
+            }
+        }
+    }
     // exponents exactly at the 64-bit scale boundary, with and without fraction digits
     let two63: i128 = 1 << 63;
     for d in -3i128..=3 {
